@@ -139,6 +139,25 @@ def _check_pairs(ctx, zoo, sig_of, kind, interchange):
             ps = list(itertools.combinations(idxs, 2))
             rnd.shuffle(ps)
             pairs += ps[:20]
+    # near twins: atoms / specifiers whose version literals agree on a prefix (3.8.1 vs 3.8.1.5 vs 3.8.1.0):
+    # candidates for an equality that truncates or pads
+    import re as _re
+
+    pb = {}
+    for i, x in enumerate(zoo):
+        try:
+            txt = str(x)
+        except Exception:  # noqa: BLE001
+            continue
+        for k in (2, 3):
+            key = _re.sub(r"(\d+(?:\.\d+){%d})(?:\.\d+)+" % (k - 1), r"\1", txt)
+            if key != txt or _re.search(r"\d+(?:\.\d+){%d}" % (k - 1), txt):
+                pb.setdefault((type(x).__name__, k, key), []).append(i)
+    for idxs in pb.values():
+        if 1 < len(idxs) <= 12:
+            ps = list(itertools.combinations(idxs, 2))
+            rnd.shuffle(ps)
+            pairs += ps[:10]
     n = len(zoo)
     for _ in range(min(600, n * 3)):
         i, j = rnd.randrange(n), rnd.randrange(n)
@@ -297,6 +316,9 @@ def _marker_part(ctx):
             'python_version < "3.10" and python_version >= "3.8"',
             'os_name == "NT"', 'os_name == "nt"', "os_name == 'nt'", 'os_name=="nt"', 'extra == "FOO-BAR"', 'extra == "foo_bar"',
             'python_version >= "3.8.0"', 'platform_release >= "5.10"', 'platform_release >= "5.10.0"',
+            'python_full_version == "3.8.1"', 'python_full_version == "3.8.1.5"', 'python_full_version == "3.8.1.0"',
+            'python_full_version >= "3.8.1.5"', 'python_full_version >= "3.8.1"', 'python_full_version < "3.8"',
+            'python_full_version < "3.8.0.1"', 'platform_release == "5.10.0.1"', 'platform_release == "5.10"',
             # literal-on-the-left in / not in (F4 stratum): equal to the forward atom, different meaning
             '"a" in os_name', 'os_name in "a"', '"lin" not in sys_platform', 'sys_platform not in "lin"']
     for t in hand:
